@@ -247,3 +247,99 @@ def test_c06_huge_colspan_is_clamped():
     advtree.build_advanced_tree(t)
     table = [n for n in t.allchildren() if n.__class__.__name__ == "Table"][0]
     assert table.numcols <= 1001
+
+
+# ---------------------------------------------------------------- fixes of waves 6 and 7
+def _clean(raw, pages=None):
+    from mwlib.parser import advtree, treecleaner
+    t = _parse(raw, pages)
+    advtree.build_advanced_tree(t)
+    tc = treecleaner.TreeCleaner(t, save_reports=True)
+    tc.clean_all()
+    return t, [r for r in tc.get_reports() if "ERROR" in str(r)]
+
+
+def test_c06_two_scrolling_cells_in_one_table_are_cleaned_without_error():
+    t, errs = _clean('{|\n|-\n| style="overflow:auto" | a\n| style="overflow:auto" | b\n|}\n')
+    assert not errs and "a" in _text(t) and "b" in _text(t)
+
+
+def test_c07_scrolling_list_keeps_its_items_in_a_list():
+    t, errs = _clean('<ul style="overflow:auto"><li>one</li><li>two</li></ul>\n')
+    assert not errs
+    assert [n.__class__.__name__ for n in t.allchildren()].count("ItemList") == 1
+
+
+def test_c02_table_caption_is_not_cut_at_a_protected_region():
+    t = _parse("{|\n|+ capa <math>x</math> capb\n|-\n| c\n|}\n")
+    cap = [n for n in t.allchildren() if n.__class__.__name__ == "Caption"][0]
+    assert "capa" in _text(cap) and "capb" in _text(cap)
+
+
+def test_c01_template_containing_itself_inside_a_reference_parses():
+    t = _parse("a{{R}}b", {"R": "x<ref>{{R}}</ref>y"})
+    assert t.__class__.__name__ == "Article"
+
+
+def test_c01_template_containing_itself_twice_inside_a_reference_is_bounded():
+    import time
+    t0 = time.time()
+    t = _parse("a{{R}}b", {"R": "a<ref>{{R}}{{R}}</ref>"})
+    assert t.__class__.__name__ == "Article" and time.time() - t0 < 30
+
+
+def test_c04_unbound_parameter_keeps_its_blanks():
+    assert _expand("{{{ x }}}") == "{{{ x }}}"
+
+
+def test_c03_templates_including_each_other_twice_are_bounded():
+    import time
+    pages = {"t%d" % i: "{{t%d}}{{t%d}}" % (i + 1, i + 1) for i in range(45)}
+    pages["t45"] = "x"
+    t0 = time.time()
+    out = _expand("{{t0}}", pages)
+    assert isinstance(out, str) and time.time() - t0 < 60
+
+
+def test_c03_tag_function_nested_in_its_own_name_does_not_double():
+    text = "{{#tag:" * 20 + "x" + "}}" * 20
+    out = _expand(text)
+    assert len(out) < 20 * len(text)
+
+
+def test_c05_article_after_an_emptied_one_is_cleaned_with_the_book():
+    from mwlib.parser import advtree, treecleaner
+    from mwlib.parser.nodes import Book
+    book = Book()
+    for i, raw in enumerate(["<br/>\n", "<ul><li>a</li>text<li>b</li></ul>\n"]):
+        from mwlib.parser.refine import uparser
+        book.append_child(uparser.parse_string(title="P%d" % i, raw=raw, lang="en"))
+    advtree.build_advanced_tree(book)
+    treecleaner.TreeCleaner(book).clean_all()
+    for lst in [n for n in book.allchildren() if n.__class__.__name__ == "ItemList"]:
+        assert all(c.__class__.__name__ == "Item" for c in lst.children), lst.children
+
+
+def test_c08_document_stays_at_its_output_path_when_the_toc_cannot_be_merged(tmp_path):
+    from mwlib.writers.rl.toc import TocRenderer
+    out = tmp_path / "output.rl"
+    out.write_bytes(b"%PDF-1.4 the document")
+    toc = tmp_path / "toc.pdf"
+    toc.write_bytes(b"%PDF-1.4 toc")
+    r = TocRenderer.__new__(TocRenderer)
+    r.pdfsam = lambda *a, **k: 1
+    r.pdftk = lambda *a, **k: 1
+    assert r.combine_pdfs(str(out), str(toc), str(tmp_path / "final.pdf"), False) != 0
+    assert out.read_bytes() == b"%PDF-1.4 the document"
+
+
+def test_c09_regions_stay_protected_on_a_page_with_very_deep_braces():
+    t = _parse("<nowiki>'''b''' [[x]]</nowiki> " + "{{lc:" * 400 + "z" + "}}" * 400)
+    assert "'''b''' [[x]]" in _text(t)
+
+
+@pytest.mark.parametrize("call", ["{{urlencode:A<nowiki>n</nowiki>B}}", "{{anchorencode:A<math>m</math>B}}", "{{padright:x|40|A<nowiki>n</nowiki>B}}",
+                                  "{{padleft:x|40|A<pre>p</pre>B}}"])
+def test_c09_encoding_and_padding_functions_leave_no_marker_debris(call):
+    txt = _text(_parse("before " + call + " after"))
+    assert "UNIQ" not in txt and "\x7f" not in txt and "QINU" not in txt
